@@ -14,6 +14,13 @@ Record MonoLaws (N : Num) := {
   mul_pos_neg : forall t m : F N, fltb f0 t = true -> fltb m f0 = true -> fltb (fmul t m) f0 = true
 }.
 
+(** the part of the order laws that holds for every IEEE double, NaN included *)
+Record TransLaws (N : Num) := {
+  tl_le_trans : forall a b c : F N, fleb a b = true -> fleb b c = true -> fleb a c = true;
+  tl_lt_le_trans : forall a b c : F N, fltb a b = true -> fleb b c = true -> fltb a c = true;
+  tl_le_lt_trans : forall a b c : F N, fleb a b = true -> fltb b c = true -> fltb a c = true
+}.
+
 Section Derived.
 Context {N : Num}.
 Variable L : OrdLaws N.
@@ -39,6 +46,8 @@ Lemma flt_le (a b : F N) : fltb a b = true -> fleb a b = true.
 Proof.
   rewrite flt_spec. intros H. destruct (leb_total N L a b) as [H1|H1]; [exact H1 | congruence].
 Qed.
+Definition TransLaws_of_OrdLaws : TransLaws N :=
+  {| tl_le_trans := fle_trans; tl_lt_le_trans := flt_le_trans; tl_le_lt_trans := fle_lt_trans |}.
 End Derived.
 
 (** ---------- the real numbers ---------- *)
